@@ -627,11 +627,15 @@ impl RtpTransport {
             options,
             rules,
         )));
+        #[cfg(rustrtc_verif)]
+        crate::verif::sched("rtp.bridge.install");
         self.has_bridge.store(true, Ordering::Release);
     }
 
     pub fn clear_bridge_rewrite(&self) {
         *self.rewrite_bridge.lock() = None;
+        #[cfg(rustrtc_verif)]
+        crate::verif::sched("rtp.bridge.clear");
         self.has_bridge.store(false, Ordering::Release);
     }
 
@@ -696,6 +700,8 @@ impl RtpTransport {
 
     pub async fn send(&self, buf: &[u8]) -> Result<usize> {
         let session = self.srtp_session.lock().as_ref().cloned();
+        #[cfg(rustrtc_verif)]
+        crate::verif::sched("rtp.send.slot");
         let Some(session) = session else {
             if self.srtp_required {
                 return Err(anyhow::anyhow!("SRTP required but session not ready"));
@@ -749,6 +755,8 @@ impl RtpTransport {
             // Release the outer guard immediately; the inner SRTP guard is
             // dropped after protection and before awaiting the transport send.
             let session = self.srtp_session.lock().as_ref().cloned();
+            #[cfg(rustrtc_verif)]
+            crate::verif::sched("rtp.send_rtp.slot");
             match session {
                 Some(session) => {
                     let mut srtp = session.lock();
@@ -806,6 +814,8 @@ impl RtpTransport {
                 raw
             }
         };
+        #[cfg(rustrtc_verif)]
+        crate::verif::sched("rtp.send_rtcp.emit");
         self.transport.send_rtcp(&protected).await
     }
 
@@ -827,6 +837,8 @@ impl RtpTransport {
                 return;
             }
         }
+        #[cfg(rustrtc_verif)]
+        crate::verif::sched("rtp.send_rtcp_sync.emit");
         let _ = self.ice_conn().try_send(&raw);
     }
 
@@ -835,6 +847,8 @@ impl RtpTransport {
         mut packet: RtpPacket,
         marshal_buf: &mut Vec<u8>,
     ) -> Option<RtpPacket> {
+        #[cfg(rustrtc_verif)]
+        crate::verif::sched("rtp.bridge.flag");
         if !self.has_bridge.load(Ordering::Acquire) {
             return Some(packet);
         }
@@ -849,6 +863,9 @@ impl RtpTransport {
             bridge.rewrite_packet(&mut packet);
             target
         };
+
+        #[cfg(rustrtc_verif)]
+        crate::verif::sched("rtp.bridge.target");
 
         // Fire the destination's egress observer on the plaintext packet
         // (symmetric with the pre-protect hook in send_rtp).
@@ -890,6 +907,8 @@ impl RtpTransport {
                 packet.marshal_into(marshal_buf);
             }
         }
+        #[cfg(rustrtc_verif)]
+        crate::verif::sched("rtp.bridge.emit");
         if let Err(e) = target.ice_conn().try_send(marshal_buf) {
             // A failed relay push is the #1 cause of "call connected but no
             // audio" — surface it instead of dropping silently.
@@ -957,6 +976,8 @@ impl PacketReceiver for RtpTransport {
                 // around the unprotect. The plain (no-SRTP) branch keeps the
                 // received `Bytes` directly (no copy) since parsing takes &[u8].
                 let session = self.srtp_session.lock().as_ref().map(|s| s.clone());
+                #[cfg(rustrtc_verif)]
+                crate::verif::sched("rtp.recv_rtcp.slot");
                 match session {
                     Some(session) => {
                         let mut buf = packet.to_vec();
@@ -1009,6 +1030,8 @@ impl PacketReceiver for RtpTransport {
                 // Parse outside both session guards. The inner SRTP lock is
                 // held only while authenticating and decrypting the packet.
                 let session = self.srtp_session.lock().as_ref().cloned();
+                #[cfg(rustrtc_verif)]
+                crate::verif::sched("rtp.recv_rtp.slot");
                 match session {
                     Some(session) => {
                         let packet = match packet.try_into_mut() {
